@@ -616,9 +616,143 @@ func init() {
 					}
 				},
 			},
+			{
+				// stored values of a type that Go cannot compare with == (a struct with a slice field, stored by value): the tree
+				// never needs to compare two stored values, only their points, so everything works as with any other type
+				Name: "values-that-cannot-be-compared", Count: h.Fixed(150, 15000),
+				Run: func(c *h.Ctx, idx uint64, r *h.Rand) {
+					b := orb.Bound{Min: orb.Point{0, 0}, Max: orb.Point{8, 8}}
+					tree := quadtree.New(b)
+					live := map[int]orb.Point{}
+					next := 0
+					var log []string
+					fail := func(msg string, extra interface{}) {
+						c.Fail("", msg, map[string]interface{}{"history": log, "detail": extra})
+					}
+					idsOf := func(ps []orb.Pointer) []int {
+						out := make([]int, 0, len(ps))
+						for _, p := range ps {
+							v, ok := p.(c11opaque)
+							if !ok {
+								return nil
+							}
+							out = append(out, v.id)
+						}
+						sort.Ints(out)
+						return out
+					}
+					for step := 0; step < 60; step++ {
+						p := orb.Point{float64(r.Intn(5)) * 2, float64(r.Intn(5)) * 2}
+						var pv interface{}
+						var st string
+						switch r.Intn(4) {
+						case 0, 1:
+							v := c11opaque{id: next, pt: p, tags: []string{"t"}}
+							next++
+							log = append(log, fmt.Sprintf("add #%d %v", v.id, p))
+							pv, st = h.Catch(func() {
+								if err := tree.Add(v); err != nil {
+									fail("Add failed", err.Error())
+								}
+							})
+							live[v.id] = p
+						case 2:
+							// remove by point: one of the values at that point goes (any of them)
+							log = append(log, fmt.Sprintf("remove-by-point %v", p))
+							n := 0
+							for _, q := range live {
+								if q == p {
+									n++
+								}
+							}
+							var got bool
+							pv, st = h.Catch(func() { got = tree.Remove(c11opaque{id: -1, pt: p}, nil) })
+							if pv == nil {
+								if got != (n > 0) {
+									fail("Remove by point reported the wrong result", map[string]interface{}{"got": got, "values_at_the_point": n})
+									return
+								}
+								if got {
+									// find out which one went
+									after := idsOf(tree.InBound(nil, b))
+									gone := -1
+									for id, q := range live {
+										if q != p {
+											continue
+										}
+										i := sort.SearchInts(after, id)
+										if i >= len(after) || after[i] != id {
+											gone = id
+										}
+									}
+									if gone < 0 {
+										fail("Remove reported success but every value is still there", nil)
+										return
+									}
+									delete(live, gone)
+								}
+							}
+						default:
+							// remove by identity (the id decides)
+							for id, q := range live {
+								log = append(log, fmt.Sprintf("remove-by-id #%d", id))
+								var got bool
+								pv, st = h.Catch(func() {
+									got = tree.Remove(c11opaque{id: id, pt: q}, func(o orb.Pointer) bool { return o.(c11opaque).id == id })
+								})
+								if pv == nil && !got {
+									fail("Remove by identity did not find a stored value", id)
+									return
+								}
+								delete(live, id)
+								break
+							}
+						}
+						c.Eval()
+						if pv != nil {
+							fail("the quadtree panicked on values of a type that cannot be compared with ==", map[string]interface{}{"panic": sv(pv), "stack": st})
+							return
+						}
+						got := idsOf(tree.InBound(nil, b))
+						want := make([]int, 0, len(live))
+						for id := range live {
+							want = append(want, id)
+						}
+						sort.Ints(want)
+						if fmt.Sprint(got) != fmt.Sprint(want) {
+							fail("the tree's contents differ from the model", map[string]interface{}{"got": got, "want": want})
+							return
+						}
+						q := orb.Point{float64(r.Intn(9)), float64(r.Intn(9))}
+						var kn []orb.Pointer
+						if pv, st := h.Catch(func() { kn = tree.KNearest(nil, q, 3); tree.Find(q) }); pv != nil {
+							fail("a query panicked on values of a type that cannot be compared with ==", map[string]interface{}{"panic": sv(pv), "stack": st})
+							return
+						}
+						wantN := len(live)
+						if wantN > 3 {
+							wantN = 3
+						}
+						if len(kn) != wantN {
+							fail("KNearest returned the wrong number of values", map[string]interface{}{"got": len(kn), "want": wantN})
+							return
+						}
+					}
+					c.Nontrivial(c.CaseHash())
+				},
+			},
 		},
 	})
 }
+
+// c11opaque is a stored value that cannot be compared with == (it has a slice field and is stored by value).
+type c11opaque struct {
+	id   int
+	pt   orb.Point
+	tags []string
+}
+
+func (o c11opaque) Point() orb.Point { return o.pt }
 
 func min2(a, b int) int {
 	if a < b {
